@@ -21,7 +21,8 @@ RULE = ("generated pipelines of 1..3 catalogued operator stages (122 stage kinds
         "subscription that was opened has been released exactly once. plus user-defined sources (reactivex.create / Observable(subscribe)) returning "
         "their teardown in every form the library accepts: the teardown runs exactly once when the terminal is delivered. non-trivial = the subscriber got a terminal and at least two "
         "source subscriptions were opened")
-ASSUMPTIONS = ["windows and groups are flattened inside the generated pipelines, so the subscriber holds no live group/window after the terminal",
+ASSUMPTIONS = ["a cleanup callback that raises (stage finally_raises) is only placed where no sibling subscription is released after it: the disposable containers are not exception-safe, and raising cleanup callbacks are outside the property's quantifier; such cases are judged by the release oracle only (no heap-model replay)",
+               "windows and groups are flattened inside the generated pipelines, so the subscriber holds no live group/window after the terminal",
                "single-threaded execution: virtual time for timelines, the default current-thread trampoline for cold synchronous producers"]
 TRUSTED_EXTRA = ["AST ownership translator harness/xlate/ownership.py (fails closed: unknown shapes are not 'owned')",
                  "class-level recording wrappers on the real disposable classes (harness/heaptrace.py)",
